@@ -74,7 +74,7 @@ def discharge(ob, timeout_ms=120000, stop_at_first=True, group_goals=True, case_
         if case_mode and v == UNSAT:
             res.append(QResult(f'reach:{lab}', UNSAT, v, dt))
             continue
-        res.append(QResult(f'reach:{lab}', SAT, v, dt))
+        res.append(QResult(f'reach:{lab}', SAT, v, dt, m))
         if v != SAT:
             if stop_at_first:
                 return res
